@@ -96,6 +96,14 @@ def main():
                 os.unlink(os.path.join("/tmp", f))
     dst = os.path.join(V, "seeded", name)
     os.makedirs(dst, exist_ok=True)
+    prev = os.path.join(dst, "meta.json")
+    if os.path.exists(prev):
+        try:
+            old = json.load(open(prev))
+            meta["earlier_runs"] = old.get("earlier_runs", []) + [{"verif_head": old.get("verif_head"), "detected": old.get("detected"), "checks": old.get("checks")}]
+        except Exception:
+            pass
+    meta["verif_head"] = sh(f"git -C {V} log --format=%h -1")[1].strip()
     for f in ("patch.diff", "demo.py", "demo.sh", "notes.md"):
         if os.path.exists(os.path.join(src, f)):
             shutil.copy(os.path.join(src, f), dst)
